@@ -26,6 +26,26 @@ def handleC18 (j : Json) : Except String Json := do
     ("fault_at", match k with | none => Json.null | some k => Json.num (k : Nat)),
     ("initial_nan", Json.bool (Jinns.SolveTrace.hasNaN ld.pg.θ0))]))
 
-def opsC18 : List (String × (Json → Except String Json)) := [("c18", handleC18)]
+/-- request {ref, obs}: the reference trace is SUPPLIED (a fault-free run of the same program, with the
+    parameters after the failing update marked NaN) instead of computed from the exact program family: used
+    for programs outside that family (a real `LossODE` / `LossPDEStatio` with a residual-adaptive data
+    generator).  `Holds.C18` is evaluated on the observation; nothing is compared with a model. -/
+def handleC18Ref (j : Json) : Except String Json := do
+  let r ← j.getObjVal? "ref"
+  let ref : Jinns.SolveTrace.RefTrace := {
+    n := ← getNat r "n", batches := [], opts := [], gens := [],
+    thetas := ← paramsList (← r.getObjVal? "thetas"),
+    losses := ← valList (← r.getObjVal? "losses"),
+    terms := ← valMat (← r.getObjVal? "terms"),
+    tracked := ← paramsList (← r.getObjVal? "tracked"),
+    zeroTracked := ← params (← r.getObjVal? "zero_tracked"),
+    nTerms := ← getNat r "n_terms" }
+  let ob ← observed (← j.getObjVal? "obs")
+  let holds := Jinns.Holds.holdsC18 ref ob.error.isSome ob.obs
+  pure (Json.mkObj [("holds", Json.bool holds.isNone), ("clause", match holds with | some c => Json.str c | none => Json.null),
+    ("agree", Json.bool true), ("differs", Json.arr #[]), ("bits", Json.num (0 : Nat)),
+    ("fault_at", match Jinns.Holds.SolveAux.firstFault ref with | none => Json.null | some k => Json.num (k : Nat))])
+
+def opsC18 : List (String × (Json → Except String Json)) := [("c18", handleC18), ("c18ref", handleC18Ref)]
 
 end Jinns.Driver
